@@ -60,7 +60,8 @@ fn fixture(root: &Path) -> Fixture {
 	std::fs::write(xdg.join("git/ignore"), "vcs_glob.x\n").unwrap();
 	std::fs::write(xdg.join("watchexec/ignore"), "app_glob.x\n").unwrap();
 	let extra_ignore = root.join("extra.ignore");
-	std::fs::write(&extra_ignore, "# explicit ignore file\nexp_igf.x\n").unwrap();
+	// a file-name line and three lines that name directories (git style: everything below them is ignored too)
+	std::fs::write(&extra_ignore, "# explicit ignore file\nexp_igf.x\nexpdir/\n/exp_rooted\nexpcache\n").unwrap();
 	let filter_file = root.join("extra.filter");
 	std::fs::write(&filter_file, "ff_*\n").unwrap();
 	std::env::set_var("HOME", &home);
@@ -100,7 +101,15 @@ pub async fn run(args: &ShardArgs, rep: &mut Report) {
 		(
 			"--ignore-file",
 			vec!["--ignore-file".into(), fx.extra_ignore.clone().into()],
-			vec![("exp_igf.x", modify, false), ("plain.txt", modify, true)],
+			vec![
+				("exp_igf.x", modify, false),
+				("expdir/inner.txt", modify, false),
+				("sub/expdir/inner.txt", modify, false),
+				("exp_rooted/inner.txt", modify, false),
+				("sub/expcache/deep/inner.txt", modify, false),
+				("plain.txt", modify, true),
+				("sub/plain.txt", modify, true),
+			],
 		),
 		("--filter", vec!["--filter".into(), "f_*".into()], vec![("f_yes.txt", modify, true), ("plain.txt", modify, false)]),
 		(
